@@ -128,6 +128,28 @@ Proof.
   - intros x vx Hx Hn. rewrite nth_error_app1 in Hn by (apply Hlt, Hx). eapply Hcov; eassumption.
 Qed.
 
+(* what a version assembled from several servers consists of *)
+Lemma mix_spec nodes x : forall rs srv l,
+  mix nodes x rs srv = Some l ->
+  incl l rs /\
+  forall r, In r rs -> In r l \/ exists j m, nth_error nodes j = Some m /\ knows m x = true /\ live (n_db m) r = false.
+Proof.
+  induction rs as [|r rs IH]; intros srv l H; cbn [mix] in H.
+  - inversion H; subst. split; [apply incl_refl|intros r []].
+  - destruct srv as [|j srv]; [discriminate|].
+    destruct (nth_error nodes j) as [m|] eqn:Em; [|discriminate].
+    destruct (knows m x) eqn:Ek; [|discriminate].
+    destruct (mix nodes x rs srv) as [l0|] eqn:E0; [|discriminate].
+    destruct (IH srv l0 E0) as [Hi Hall]. inversion H; subst l. clear H.
+    destruct (live (n_db m) r) eqn:El.
+    + split.
+      * intros y [<-|Hy]; [left; reflexivity|right; apply Hi, Hy].
+      * intros y [<-|Hy]; [left; left; reflexivity|]. destruct (Hall y Hy) as [H|H]; [left; right; exact H|right; exact H].
+    + split.
+      * intros y Hy. right. apply Hi, Hy.
+      * intros y [<-|Hy]; [right; exists j, m; auto|]. destruct (Hall y Hy) as [H|H]; [left; exact H|right; exact H].
+Qed.
+
 Section Step.
 Variable W : list rec.
 Hypothesis Hwf : wf W.
@@ -189,7 +211,7 @@ Qed.
 Lemma cstep_inv s o :
   CInv W s -> incl (all_recs (c_log (cstep s o))) W -> CInv W (cstep s o).
 Proof.
-  intros Hinv HlW. destruct o as [i rs|i j x extra]; cbn [cstep] in *.
+  intros Hinv HlW. destruct o as [i rs|i j x extra|i x srv]; cbn [cstep] in *.
   - destruct (nth_error (c_nodes s) i) as [n|] eqn:En; [|exact Hinv].
     unfold CInv. cbn [c_log c_nodes] in *. intros i' nd Hnd.
     destruct (Nat.eq_dec i' i) as [->|Hne].
@@ -220,15 +242,33 @@ Proof.
         destruct (Hcovm x vx Hmx Ex r Hr) as [Hm|Hm]; [|exact Hm].
         rewrite Hdbm in Hl. apply (omitted_is_below (n_merged m)); try assumption.
         intros y Hy. apply HlW, Hinm, Hy.
+  - destruct (nth_error (c_nodes s) i) as [n|] eqn:En; [|exact Hinv].
+    destruct (nth_error (c_log s) x) as [vx|] eqn:Ex; [|exact Hinv].
+    destruct (negb (knows n x)); [|exact Hinv].
+    destruct (mix (c_nodes s) x (v_recs vx) srv) as [l|] eqn:Emix; [|exact Hinv].
+    destruct (mix_spec _ _ _ _ _ Emix) as [Hil Hall].
+    unfold CInv. cbn [c_log c_nodes] in *. intros i' nd Hnd.
+    destruct (Nat.eq_dec i' i) as [->|Hne].
+    2:{ rewrite nth_set_nth_neq in Hnd by exact Hne. apply (Hinv _ _ Hnd). }
+    rewrite (nth_set_nth_eq _ _ _ _ En) in Hnd. inversion Hnd; subst nd.
+    apply absorb_ok with (vx := vx); [apply (Hinv _ _ En)|exact HlW|exact Ex|exact Hil|].
+    intros r Hr. destruct (Hall r Hr) as [H|[j [m [Em [Hmx Hl]]]]]; [left; exact H|right].
+    destruct (Hinv j m Em) as [Hdbm [Hinm [_ Hcovm]]].
+    destruct (Hcovm x vx Hmx Ex r Hr) as [Hm|Hm]; [|exact Hm].
+    rewrite Hdbm in Hl. apply (omitted_is_below (n_merged m)); try assumption.
+    intros y Hy. apply HlW, Hinm, Hy.
 Qed.
 
 Lemma log_ext_step s o : exists e, c_log (cstep s o) = c_log s ++ e.
 Proof.
-  destruct o as [i rs|i j x extra]; cbn [cstep].
+  destruct o as [i rs|i j x extra|i x srv]; cbn [cstep].
   - destruct (nth_error (c_nodes s) i); [eexists; reflexivity|exists []; symmetry; apply app_nil_r].
   - destruct (nth_error (c_nodes s) i), (nth_error (c_nodes s) j), (nth_error (c_log s) x);
       try (exists []; symmetry; apply app_nil_r).
     destruct (knows _ _ && negb _); exists []; symmetry; apply app_nil_r.
+  - destruct (nth_error (c_nodes s) i), (nth_error (c_log s) x); try (exists []; symmetry; apply app_nil_r).
+    destruct (negb _); [|exists []; symmetry; apply app_nil_r].
+    destruct (mix _ _ _ _); exists []; symmetry; apply app_nil_r.
 Qed.
 
 Lemma log_ext_run ops : forall s, exists e, c_log (fold_left cstep ops s) = c_log s ++ e.
@@ -375,7 +415,7 @@ Proof.
                                n_db nd = merge_all [] (n_merged nd) /\ incl (n_merged nd) (all_recs (c_log (fold_left cstep ops s)))).
   { clear. induction ops as [|o ops IH]; intros s Hs; cbn [fold_left]; [exact Hs|].
     apply IH. clear IH. intros i' nd' Hnd'.
-    destruct o as [i rs|i j x extra]; cbn [cstep] in *.
+    destruct o as [i rs|i j x extra|i x srv]; cbn [cstep] in *.
     - destruct (nth_error (c_nodes s) i) as [n0|] eqn:En; [|apply (Hs _ _ Hnd')].
       cbn [c_log c_nodes] in *. rewrite all_recs_app.
       destruct (Nat.eq_dec i' i) as [->|Hne].
@@ -397,6 +437,19 @@ Proof.
         * rewrite Hdb. unfold merge_all. rewrite fold_left_app. reflexivity.
         * intros r Hr. apply in_app_or in Hr. destruct Hr as [Hr|Hr]; [apply Hin, Hr|].
           unfold served in Hr. apply filter_In in Hr. eapply all_recs_nth; [exact Ex|apply Hr].
+      + rewrite nth_set_nth_neq in Hnd' by exact Hne. apply (Hs _ _ Hnd').
+    - destruct (nth_error (c_nodes s) i) as [n0|] eqn:En; [|apply (Hs _ _ Hnd')].
+      destruct (nth_error (c_log s) x) as [vx|] eqn:Ex; [|apply (Hs _ _ Hnd')].
+      destruct (negb (knows n0 x)); [|apply (Hs _ _ Hnd')].
+      destruct (mix (c_nodes s) x (v_recs vx) srv) as [l|] eqn:Emix; [|apply (Hs _ _ Hnd')].
+      destruct (mix_spec _ _ _ _ _ Emix) as [Hil _].
+      cbn [c_log c_nodes] in *.
+      destruct (Nat.eq_dec i' i) as [->|Hne].
+      + rewrite (nth_set_nth_eq _ _ _ _ En) in Hnd'. inversion Hnd'; subst nd'. cbn [absorb n_db n_merged].
+        destruct (Hs i n0 En) as [Hdb Hin]. split.
+        * rewrite Hdb. unfold merge_all. rewrite fold_left_app. reflexivity.
+        * intros r Hr. apply in_app_or in Hr. destruct Hr as [Hr|Hr]; [apply Hin, Hr|].
+          eapply all_recs_nth; [exact Ex|apply Hil, Hr].
       + rewrite nth_set_nth_neq in Hnd' by exact Hne. apply (Hs _ _ Hnd'). }
   apply (H ops (cinit n)) with (i := i); [|exact Hnd].
   intros i0 nd0 H0. cbn in H0. apply nth_error_In, repeat_spec in H0. subst nd0. split; [reflexivity|intros r []].
@@ -433,7 +486,7 @@ Proof.
   intros Hnd.
   assert (Hsame : exists nd', nth_error (c_nodes s) i = Some nd' /\ forall y, knows nd y = true -> knows nd' y = true)
     by (exists nd; split; [exact Hnd|auto]).
-  destruct o as [i0 rs|i0 j x extra]; cbn [cstep].
+  destruct o as [i0 rs|i0 j x extra|i0 x srv]; cbn [cstep].
   - destruct (nth_error (c_nodes s) i0) as [n0|] eqn:En; [|exact Hsame]. cbn [c_nodes].
     destruct (Nat.eq_dec i i0) as [->|Hne].
     + rewrite (nth_set_nth_eq _ _ _ _ En). eexists. split; [reflexivity|].
@@ -443,6 +496,14 @@ Proof.
     destruct (nth_error (c_nodes s) j) as [m|]; [|exact Hsame].
     destruct (nth_error (c_log s) x) as [vx|]; [|exact Hsame].
     destruct (knows m x && negb (knows n0 x)); [|exact Hsame]. cbn [c_nodes].
+    destruct (Nat.eq_dec i i0) as [->|Hne].
+    + rewrite (nth_set_nth_eq _ _ _ _ En). eexists. split; [reflexivity|].
+      intros y Hy. rewrite knows_absorb. rewrite Hnd in En. inversion En; subst n0. rewrite Hy. apply orb_true_r.
+    + rewrite nth_set_nth_neq by exact Hne. exists nd. split; [exact Hnd|auto].
+  - destruct (nth_error (c_nodes s) i0) as [n0|] eqn:En; [|exact Hsame].
+    destruct (nth_error (c_log s) x) as [vx|]; [|exact Hsame].
+    destruct (negb (knows n0 x)); [|exact Hsame].
+    destruct (mix (c_nodes s) x (v_recs vx) srv) as [l|]; [|exact Hsame]. cbn [c_nodes].
     destruct (Nat.eq_dec i i0) as [->|Hne].
     + rewrite (nth_set_nth_eq _ _ _ _ En). eexists. split; [reflexivity|].
       intros y Hy. rewrite knows_absorb. rewrite Hnd in En. inversion En; subst n0. rewrite Hy. apply orb_true_r.
@@ -461,7 +522,7 @@ Proof.
     destruct (cstep_knows_mono s o _ nd Hnd) as [nd' [Hnd' Hmono]].
     exists nd'. split; [exact Hnd'|apply Hmono, Hk].
   - (* the version this step appended: only Local does that *)
-    destruct o as [i rs|i j y extra]; cbn [cstep] in *.
+    destruct o as [i rs|i j y extra|i y srv]; cbn [cstep] in *.
     + destruct (nth_error (c_nodes s) i) as [n0|] eqn:En.
       * cbn [c_log c_nodes] in *. apply nth_error_None in Eold.
         assert (Hxl : x = length (c_log s)).
@@ -483,6 +544,11 @@ Proof.
       { destruct (nth_error (c_nodes s) i), (nth_error (c_nodes s) j), (nth_error (c_log s) y); try reflexivity.
         destruct (knows _ _ && negb _); reflexivity. }
       rewrite Hl, Eold in Hx. discriminate.
+    + exfalso. destruct (log_ext_step s (PullMix i y srv)) as [e' He']. cbn [cstep] in He'.
+      assert (Hsame : c_log (cstep s (PullMix i y srv)) = c_log s).
+      { cbn [cstep]. destruct (nth_error (c_nodes s) i), (nth_error (c_log s) y); try reflexivity.
+        destruct (negb _); [|reflexivity]. destruct (mix _ _ _ _); reflexivity. }
+      cbn [cstep] in Hsame. rewrite Hsame, Eold in Hx. discriminate.
 Qed.
 
 Lemma run_own ops : forall s, OwnKnown s -> OwnKnown (fold_left cstep ops s).
@@ -491,7 +557,7 @@ Proof. induction ops as [|o ops IH]; intros s H; cbn [fold_left]; [exact H|apply
 Lemma cinit_own n : OwnKnown (cinit n).
 Proof. intros x vx Hx. cbn in Hx. destruct x; discriminate. Qed.
 
-Definition is_pull (o : cop) : Prop := match o with Pull _ _ _ _ => True | Local _ _ => False end.
+Definition is_pull (o : cop) : Prop := match o with Local _ _ => False | _ => True end.
 
 (* from any state in which origins know their own versions, node i can fetch every version of a list *)
 Lemma fetch_all xs : forall s i nd,
